@@ -20,6 +20,8 @@ from pyvc.values import (L_len, L_at, VStr, VInt, VNone, VBox, VRef, VTuple, VCo
 from specs import sections as SP
 
 QN = 'pydiffx.writer.DiffXWriter.'
+# set by the C05 check before registering (see register_prepare)
+INDENT_VALID = False
 S = z3.StringVal
 PREVS = list(SP.NINE)   # after construction the main header is written
 
@@ -469,9 +471,12 @@ def register_prepare(engine, only_prev=None):
         )},
         ensures=[
             ('pure', 'state_unchanged(self)'),
-            # C05/C02: a block is only produced for an indentation the
-            # reader accepts
+        ] + ([
+            # C05 only (C01/C02 quantify over indent >= 0 and say nothing
+            # about other values): a block is only produced for an
+            # indentation the reader accepts
             ('indent_valid', 'indent is None or indent >= 0'),
+        ] if INDENT_VALID else []) + [
             ('nonempty', 'len(result[0]) > 0'),
             ('kind', 'result[1] in ("unix", "dos") and '
                      '(line_endings is None or result[1] == line_endings)'),
